@@ -50,7 +50,7 @@ func (g *gen) className() string {
 
 func (g *gen) newClass(kind string) *classSpec {
 	cs := &classSpec{kind: kind, name: g.className(), pkg: "com.acme." + g.r.Pick(pkgWords), public: g.r.Chance(5, 6),
-		layout: g.r.Pick([]string{"flat", "pkgdirs", "pkgdirs", "maven"}), unit: g.r.Pick([]string{"    ", "    ", "  ", "\t"}), javadoc: g.r.Chance(1, 3)}
+		layout: g.r.Pick([]string{"flat", "pkgdirs", "pkgdirs", "maven"}), unit: g.r.Pick([]string{"    ", "    ", "  ", "\t"}), javadoc: g.r.Chance(1, 3), crlf: g.r.Chance(1, 5)}
 	if kind == "class" {
 		cs.final = g.r.Chance(1, 8)
 		if g.r.Chance(1, 6) {
@@ -770,6 +770,37 @@ func strIndex(s, sub string) int {
 
 func strContains(s, sub string) bool { return strIndex(s, sub) >= 0 }
 
+// 11. one point per dimension and offset once more in a file written with \r\n line ends (the other points get
+// them by chance, one file in five)
+func init() {
+	want := []string{"methodLen:%s/class/same", "params:%s/class", "nonGetterSetter:%s/gs=3/class", "topIfs:%s/nested/class", "topSwitches:%s/none/class",
+		"conditionLines:%s/top/class", "conditionLines:%s/nested-in-if"}
+	n := len(points)
+	for _, d := range offs() {
+		for _, w := range want {
+			tag := strReplace(w, "%s", tagOff(d))
+			for i := 0; i < n; i++ {
+				if points[i].tag == tag {
+					orig := points[i].build
+					points = append(points, point{tag + "/crlf", func(g *gen) *classSpec {
+						cs := orig(g)
+						cs.crlf = true
+						return cs
+					}})
+				}
+			}
+		}
+	}
+}
+
+func strReplace(s, old, new string) string {
+	i := strIndex(s, old)
+	if i < 0 {
+		return s
+	}
+	return s[:i] + new + s[i+len(old):]
+}
+
 // mix shuffles top-level statements and sprinkles one-line fillers between them.
 func (g *gen) mix(body []stmtSpec) []stmtSpec {
 	var out []stmtSpec
@@ -1021,6 +1052,31 @@ func Rich(r *run.Rand) *Project {
 	}
 	core.methods = g.shuffle(ms)
 	specs = append(specs, core)
+
+	core.crlf = false
+	{
+		// a second, small class with the method-level kinds at their boundaries, always written with \r\n line ends
+		cs := g.newClass("class")
+		cs.crlf = true
+		var wm []*methodSpec
+		for _, l := range []int{tLen + 1, tLen} {
+			m := g.plain("class")
+			m.params, m.target = g.r.Intn(3), l
+			wm = append(wm, m)
+		}
+		m := g.plain("class")
+		m.body = g.mix([]stmtSpec{g.ifS(tCond, false), g.ifS(tCond-1, false)})
+		wm = append(wm, m)
+		for _, n := range []int{tRepeat, tRepeat - 1} {
+			m := g.plain("class")
+			for i := 0; i < n; i++ {
+				m.body = append(m.body, stmtSpec{kind: "if", h: 1, noBr: true, body: []stmtSpec{{kind: "simple", text: "acc++;"}}})
+			}
+			wm = append(wm, m)
+		}
+		cs.methods = g.shuffle(wm)
+		specs = append(specs, cs)
+	}
 
 	// one sized kind with >= 13 findings spread over >= 3 files, sizes in no particular relation to the file names:
 	// three abstract classes with five one-line abstract methods of 6-12 parameters each (+ the ones in core)
